@@ -626,9 +626,20 @@ pub fn table_drive<T: TableOps>(o: &mut Out, def: u32, depth: usize, steps: usiz
         }
     }
     // every Some/None and Ok/Err mask
-    if n <= 6 {
-        for m in 0..(1u32 << n) {
-            let mask: Vec<bool> = (0..n).map(|p| m >> p & 1 == 1).collect();
+    {
+        // (every mask up to 6 slots; beyond that: all present, none present, each single absent slot, and pairs of absent slots
+        // with the last / the first one - 8, 16, 24 slots are where a packed presence mask has a full last byte)
+        let mut masks: Vec<Vec<bool>> = Vec::new();
+        if n <= 6 {
+            for m in 0..(1u32 << n) { masks.push((0..n).map(|p| m >> p & 1 == 1).collect()); }
+        } else {
+            masks.push(vec![true; n]);
+            masks.push(vec![false; n]);
+            for p in 0..n { let mut v = vec![true; n]; v[p] = false; masks.push(v); }
+            for p in 0..n - 1 { let mut v = vec![true; n]; v[p] = false; v[n - 1] = false; masks.push(v); }
+            for p in 1..n { let mut v = vec![true; n]; v[p] = false; v[0] = false; masks.push(v); }
+        }
+        for mask in masks {
             let mj: Vec<String> = mask.iter().map(|b| (*b as u8).to_string()).collect();
             match catch(|| T::all(&mask)) {
                 Ok(Some(v)) => tb_line(o, def, "all", -1, 0, 0, 0, 1, false, &jlist(&v.iter().map(|x| x.to_string()).collect::<Vec<_>>()), &format!(",\"mask\":{}", jlist(&mj))),
